@@ -15,7 +15,7 @@ import json, os, random, shutil, subprocess, sys
 import vlib
 
 HARNESS = ["sync/c08_spin_test.go"]
-ASM_INVS = "MutualExclusion HeldMeansLocked FreeWhenIdle Visibility EntrySeesAll NoWildAccess".split()
+ASM_INVS = "MutualExclusion HeldMeansLocked FreeWhenIdle Visibility EntrySeesAll NoWildAccess NeighbourIntact TryFailsClean".split()
 
 
 def extract(ctx, d):
@@ -145,6 +145,8 @@ def case_sched(events):
     """Rebuild the command list of a controlled-schedule case from its events (for the replay file)."""
     sched = []
     for e in events:
+        if e.get("t") == 0:          # the observer's probes are made by the harness itself, not by the schedule
+            continue
         if e["k"] == "call":
             sched.append([e["op"], e["t"]])
             if e["op"] == "try":
@@ -183,6 +185,9 @@ def run(ctx):
     ctx.assumptions += [
         "memory model of SpinAsm: the 4-byte lock word followed by 4 neighbour bytes (a non-zero datum, or another lock the "
         "environment takes and releases); every instruction acts with its operand width (B/W/L/Q)",
+        "no assumption on how the lock word encodes held/free: models and monitor observe it only through the lock's own "
+        "operations (a TryToAcquire that runs all alone must succeed; an observer task's TryToAcquire/Release in the harness), "
+        "the raw word is only compared with itself for equality around a failed try",
         "hardware: XCHG with a memory operand is atomic and drains the store buffer, plain 32-bit loads/stores are single "
         "accesses, x86-TSO store buffers are FIFO (SpinAsm, TSO = TRUE); CALL clobbers every register",
         "the Go atomics used by TryToAcquire/Release are sequentially consistent (Go memory model)",
@@ -208,12 +213,12 @@ def run(ctx):
         coverage_guard(ctx, d, "MCSpinAsm", "MCSpinAsmF2TSOPlainRel", {"XchgWrite", "Env"})
     # ---- leg M, instruction level, on the table extracted from the current sources
     if q:
-        cfgs = [("MCSpinAsmQ3", 300), ("MCSpinAsmQ2Live", 300), ("MCSpinAsmQ2TSO", 300)]
+        cfgs = [("MCSpinAsmQ3", 600), ("MCSpinAsmQ2Live", 900), ("MCSpinAsmQ2TSO", 600)]
         muts = ["MCSpinAsmBug_XchgNotAtomic", "MCSpinAsmBug_BufferNotFifo"]
     else:
-        cfgs = [("MCSpinAsmF3", 900), ("MCSpinAsmF3NoYield", 900), ("MCSpinAsmF3Env", 900), ("MCSpinAsmQ2Live", 600),
-                ("MCSpinAsmQ2EnvLive", 600), ("MCSpinAsmF3Live", 900), ("MCSpinAsmF4", 900), ("MCSpinAsmF3TSO", 900),
-                ("MCSpinAsmQ2TSO", 600)]
+        cfgs = [("MCSpinAsmF3", 1500), ("MCSpinAsmQ3NoYield", 600), ("MCSpinAsmQ3Env", 600), ("MCSpinAsmF2Mod", 900),
+                ("MCSpinAsmQ2Live", 900), ("MCSpinAsmQ2EnvLive", 900), ("MCSpinAsmF3Live", 900), ("MCSpinAsmF4", 900),
+                ("MCSpinAsmF3TSO", 900), ("MCSpinAsmQ2TSO", 600)]
         muts = ["MCSpinAsmBug_XchgNotAtomic", "MCSpinAsmBug_BufferNotFifo"]
     if os.environ.get("VERIF_CONC_DYNAMIC_ONLY") != "1":      # development switch: measure the dynamic legs alone
         asm_leg(ctx, d, cfgs, muts)
@@ -284,7 +289,7 @@ def dynamic_legs(ctx, d, q):
                 ng += 1
                 cur = []
             elif e["k"] != "stuck":
-                cur.append([e["k"], e.get("t"), e.get("op"), e.get("st") if e["k"] == "probe" else e.get("c")])
+                cur.append([e["k"], e.get("t"), e.get("op"), e.get("c")])
     # ---- leg T: 16-thread stress
     if not (stuck_all and not ctx.violations):
         tr2 = os.path.join(ctx.work, "trace_T.ndjson")
@@ -343,7 +348,7 @@ def replay(ctx, path):
         with open(tr3, "w") as f:
             for e in rep.get("events", []):
                 f.write(json.dumps(e) + "\n")
-            f.write(json.dumps({"k": "reset", "t": 0, "c": 0, "st": 0}) + "\n")
+            f.write(json.dumps({"k": "reset", "t": 0, "c": 0}) + "\n")
         m2, _, _ = validate(ctx, "replay-recorded", tr3, 1)
         ctx.log("recorded window of the replay file: %s by the monitor" % ("still rejected" if m2 else "accepted"))
     return None
